@@ -261,4 +261,121 @@ Proof.
       rewrite (ERASED i j Hle Hin). destruct (Nat.eqb i v || Nat.eqb j v); auto.
     + destruct (existsb _ es), (Nat.eqb i v || Nat.eqb j v); auto.
 Qed.
+
+(* ---------- removeSelfLoops: removeEdge(i, i) for every vertex ---------- *)
+Lemma u_remove_loops_spec vs : forall g, InvU g -> (forall i, In i vs -> (i < size g)%nat) ->
+  let '(g', r) := for_vertices (fun g i => u_remove_edge g i i) vs g in
+  r = Done /\ InvU g' /\ size g' = size g /\
+  (forall i j, In j (nb g' i) <-> In j (nb g i) /\ ~ (In i vs /\ j = i)) /\
+  (forall e, lfind e (labels g') = if existsb (fun i => edge_eqb (i, i) e) vs then None else lfind e (labels g)).
+Proof.
+  induction vs as [|v vs IH]; intros g I R; cbn [for_vertices].
+  - split; auto. split; auto. split; auto. split; [intros; tauto|auto].
+  - pose proof (R v (or_introl eq_refl)) as Hv.
+    pose proof (u_remove_edge_spec g v v I Hv Hv) as RS.
+    destruct (u_remove_edge g v v) as [g1 r1]. destruct RS as [-> [I1 [S1 [E1 L1]]]].
+    specialize (IH g1 I1). destruct (for_vertices (fun g i => u_remove_edge g i i) vs g1) as [g' r].
+    destruct IH as [-> [I' [S' [E' L']]]]. { intros i Hi; rewrite S1; apply R; right; auto. }
+    split; auto. split; auto. split; [congruence|]. split.
+    + intros i j. rewrite E', E1. split.
+      * intros [[A [B _]] C]. split; auto. intros [[<-|Hin] ->]; [apply B; auto|apply C; auto].
+      * intros [A B]. split; [split; [auto|split]|]; intros [X Y]; apply B; subst; auto; simpl; auto.
+    + intros e. rewrite L', L1. simpl.
+      assert (ordered v v = (v, v)) as -> by (unfold ordered; rewrite Nat.ltb_irrefl; auto).
+      destruct (edge_eqb (v, v) e); simpl; auto. destruct (existsb (fun i => edge_eqb (i, i) e) vs); auto.
+Qed.
+Lemma u_remove_self_loops_spec g : InvU g ->
+  let '(g', r) := u_remove_self_loops g in
+  r = Done /\ InvU g' /\ size g' = size g /\
+  (forall i j, In j (nb g' i) <-> In j (nb g i) /\ i <> j) /\
+  (has_store = true -> forall i j, lfind (i, j) (labels g') = if Nat.eqb i j then None else lfind (i, j) (labels g)).
+Proof.
+  intros I. unfold u_remove_self_loops.
+  pose proof (u_remove_loops_spec (seq 0 (size g)) g I) as H.
+  destruct (for_vertices _ (seq 0 (size g)) g) as [g' r].
+  destruct H as [-> [I' [S' [E' L']]]]. { intros i Hi; apply in_seq in Hi; lia. }
+  split; auto. split; auto. split; auto. split.
+  - intros i j; rewrite E'. split.
+    + intros [A B]; split; auto. intros <-. apply B; split; auto. apply in_seq. apply (u_rng _ I) in A. lia.
+    + intros [A B]; split; auto. intros [_ ->]; congruence.
+  - intros HS i j; rewrite L'. destruct (Nat.eqb_spec i j) as [<-|Hne].
+    + destruct (Nat.ltb_spec i (size g)).
+      * replace (existsb _ _) with true; auto. symmetry; apply existsb_exists. exists i; split; [apply in_seq; lia|apply edge_eqb_refl].
+      * replace (existsb _ _) with false.
+        2:{ symmetry. apply not_true_is_false. rewrite existsb_exists. intros [x [Hx E]]. apply in_seq in Hx.
+            destruct (edge_eqb_spec (x, x) (i, i)) as [E0|]; [|discriminate]. injection E0 as ->. lia. }
+        (* no label is stored for an out-of-range key *)
+        pose proof (u_lab _ I) as UL. rewrite HS in UL. destruct (lfind (i, i) (labels g)) eqn:F; auto.
+        exfalso. assert (X : lfind (i, i) (labels g) <> None) by congruence. apply UL in X as [_ X]. apply (u_rng _ I) in X. lia.
+    + replace (existsb _ _) with false; auto. symmetry. apply not_true_is_false. rewrite existsb_exists.
+      intros [x [Hx E]]. destruct (edge_eqb_spec (x, x) (i, j)) as [E0|]; [|discriminate]. congruence.
+Qed.
+
+(* ---------- clearEdges (repaired), resize, setEdgeLabel, removeDuplicateEdges ---------- *)
+Lemma u_clear_edges_spec g : InvU g ->
+  let '(g', r) := clear_edges repaired g in
+  r = Done /\ InvU g' /\ size g' = size g /\ (forall i, nb g' i = []) /\ labels g' = [].
+Proof.
+  intros I. unfold clear_edges. rewrite (u_len _ I), Nat.leb_refl. cbn [v_clear_labels repaired].
+  assert (NB : forall i, nth i (map (fun _ : list nat => @nil nat) (adj g)) [] = []) by (intros; apply nth_map_nil).
+  split; auto. split; [|split; auto; split; auto].
+  constructor; cbn [adj size enum labels].
+  - rewrite map_length; apply (u_len _ I).
+  - intros i; unfold nb; cbn [adj]; rewrite NB; constructor.
+  - intros i j; unfold nb; cbn [adj]; rewrite NB; intros [].
+  - intros i j; unfold nb; cbn [adj]; rewrite NB; intros [].
+  - unfold utotal. rewrite utotal_from_map_nil; auto.
+  - destruct has_store; auto. intros i j; unfold nb; cbn [adj]; rewrite NB; simpl. split; [congruence|intros [_ []]].
+Qed.
+Lemma u_resize_spec g n : InvU g -> (size g <= n)%nat ->
+  let '(g', r) := resize g n in
+  r = Done /\ InvU g' /\ size g' = n /\ (forall i, nb g' i = nb g i) /\ labels g' = labels g.
+Proof.
+  intros I Hn. unfold resize. destruct (Nat.ltb_spec n (size g)); [lia|].
+  assert (E : firstn n (adj g) = adj g) by (apply firstn_all2; rewrite (u_len _ I); auto).
+  assert (NB : forall i, nth i (firstn n (adj g) ++ repeat [] (n - length (adj g))) [] = nb g i).
+  { intros i. rewrite E. apply nth_app_repeat. }
+  split; auto. split; [|split; auto; split; auto].
+  constructor; cbn [adj size enum labels].
+  - rewrite E, app_length, repeat_length, (u_len _ I). lia.
+  - intros i; unfold nb; cbn [adj]; rewrite NB; apply (u_nodup _ I).
+  - intros i j; unfold nb; cbn [adj]; rewrite NB. intros Hin; apply (u_rng _ I) in Hin. lia.
+  - intros i j; unfold nb; cbn [adj]; rewrite !NB. apply (u_sym _ I).
+  - rewrite E. unfold utotal. rewrite utotal_from_app, utotal_from_repeat_nil, (u_enum _ I). unfold utotal. lia.
+  - pose proof (u_lab _ I) as IL. destruct has_store; auto. intros i j; unfold nb; cbn [adj]; rewrite NB. apply IL.
+Qed.
+Lemma u_set_label_inv g a b l : InvU g -> In b (nb g a) ->
+  InvU {| adj := adj g; size := size g; enum := enum g; labels := set_label has_store (ordered a b) l (labels g) |}.
+Proof.
+  intros I Hin. constructor; cbn [adj size enum labels]; try apply I.
+  pose proof (u_lab _ I) as IL. unfold set_label. destruct has_store; auto.
+  intros i j. unfold nb; cbn [adj]. fold (nb g i). rewrite lfind_lset.
+  destruct (edge_eqb_spec (ordered a b) (i, j)) as [E|NE]; [|apply IL].
+  split; [intros _|congruence]. pose proof (ordered_le a b) as LE. pose proof (In_ordered g a b I) as IO. rewrite E in LE, IO. simpl in *. tauto.
+Qed.
+Lemma u_set_label_spec g a b l : InvU g -> (a < size g)%nat -> (b < size g)%nat ->
+  u_set_edge_label has_store g a b l false =
+  if mem b (nb g a) then ({| adj := adj g; size := size g; enum := enum g; labels := set_label has_store (ordered a b) l (labels g) |}, Done)
+  else (g, Thrown InvalidArgument).
+Proof.
+  intros I Ha Hb. unfold u_set_edge_label, set_edge_label.
+  assert (R : in_range g (fst (ordered a b)) && in_range g (snd (ordered a b)) = true).
+  { unfold in_range. destruct (ordered_cases a b) as [[-> _]|[-> _]]; simpl; rewrite !(proj2 (Nat.ltb_lt _ _)); auto. }
+  rewrite R. pose proof (u_has_edge_val g a b I Ha Hb) as HE. unfold u_has_edge in HE. rewrite HE.
+  destruct (mem b (nb g a)); auto. destruct (ordered a b); reflexivity.
+Qed.
+Lemma u_dedup_nodup i (l : list nat) : forall seen, NoDup l -> (forall x, In x l -> ~ In x seen) -> u_dedup i seen l = (l, 0).
+Proof. induction l as [|x t IH]; intros seen ND D; cbn [u_dedup]; auto. inversion ND; subst.
+  assert (mem x seen = false) as -> by (apply mem_false, D; simpl; auto).
+  rewrite IH; auto. intros y Hy [<-|Hs]; [contradiction|]. apply (D y); simpl; auto. Qed.
+Lemma u_remove_duplicates_noop g : InvU g -> u_remove_duplicates g = (g, Done).
+Proof.
+  intros I. unfold u_remove_duplicates. rewrite (u_len _ I), Nat.leb_refl.
+  assert (A : forall (a : list (list nat)) k, (forall l, In l a -> NoDup l) -> u_dedup_rows k a = (a, 0)).
+  { induction a as [|x t IH]; intros k H; cbn [u_dedup_rows]; auto.
+    rewrite u_dedup_nodup by (auto; apply H; simpl; auto). rewrite IH by (intros; apply H; simpl; auto). reflexivity. }
+  rewrite A. { rewrite Z.sub_0_r. destruct g; reflexivity. }
+  intros l Hl. apply In_nth with (d := []) in Hl as [i [_ <-]]. apply (u_nodup _ I).
+Qed.
+
 End UProofs.
